@@ -517,6 +517,15 @@ func (c *Ctx) Report(o Oracle, cands map[string][]candidate) int {
 		if !ok {
 			// try the un-minimised original before giving up
 			ok2, account2 := o.Confirm(c, best.cs, best.f)
+			// ... and then the largest other cases with this signature: minimisation drives a
+			// super-linear blow-up to the very edge of the budget, where the plain build (whose
+			// cost per tick is at most the virtual clock's) still finishes in time; a bigger
+			// instance of the same defect does not
+			for k := len(list) - 1; !ok2 && k >= 1 && k >= len(list)-6; k-- {
+				if ok3, account3 := o.Confirm(c, list[k].cs, list[k].f); ok3 {
+					best, ok2, account2 = list[k], true, account3+" (largest case with this signature; the minimised one finishes just inside the real window)"
+				}
+			}
 			if ok2 {
 				cs, f, ok, account = best.cs, best.f, true, account2
 			} else {
